@@ -455,6 +455,9 @@ func (s *session) visitNode(sprint *sprint, run flows.Run, node flows.Node, trig
 		if err := trigger.InitializeRun(run, logEvent); err != nil {
 			return step, nil, "", nil
 		}
+
+		// the trigger may have changed the contact (e.g. last seen on for a received message)
+		s.ensureQueryBasedGroups(logEvent)
 	}
 
 	// execute our node's actions
